@@ -589,7 +589,11 @@ func c02Wrapper(r *core.Run, a *atWorld) {
 func c02Retry(r *core.Run, a *atWorld) {
 	w := r.W
 	n := 0
+	var loopFns []*core.FuncInfo
 	for _, rf := range dedupFns(a.reportFns) {
+		loopFns = append(loopFns, withCallees(w, rf, 2)...)
+	}
+	for _, rf := range dedupFns(loopFns) {
 		info := rf.Pkg.TypesInfo
 		ast.Inspect(rf.Decl.Body, func(x ast.Node) bool {
 			fs, ok := x.(*ast.ForStmt)
@@ -710,6 +714,34 @@ func c02Wrapped(r *core.Run, a *atWorld) {
 					}
 				}
 			}
+			// (a helper of the connection that drives the executor: every call of it sits in such a closure)
+			if !inside {
+				cs := w.Callers(f.Obj)
+				all := len(cs) > 0
+				for _, site := range cs {
+					if site.Caller.Pkg != f.Pkg || w.IsTestFile(site.Caller.Decl.Pos()) {
+						continue
+					}
+					ok := false
+					if site.InLit != nil {
+						cinfo := site.Caller.Pkg.TypesInfo
+						ast.Inspect(site.Caller.Decl.Body, func(y ast.Node) bool {
+							if oc, isCall := y.(*ast.CallExpr); isCall && isWrapper[core.Callee(cinfo, oc)] {
+								for _, arg := range oc.Args {
+									if ast.Unparen(arg) == ast.Expr(site.InLit) {
+										ok = true
+									}
+								}
+							}
+							return true
+						})
+					}
+					if !ok {
+						all = false
+					}
+				}
+				inside = all
+			}
 			r.Check(inside, "C02.order", core.ShortKey(f.Obj)+" runs its executor inside the implicit-transaction wrapper", w.Pos(c.Pos()), "inside the closure handed to the wrapper",
 				"the statement's executor is called outside the implicit-transaction wrapper: in autocommit mode inside a global transaction a DML statement arriving on this entry point is executed without BEGIN, branch registration, undo log and COMMIT ordering")
 			return true
@@ -756,21 +788,25 @@ func c02ReportFailed(r *core.Run) {
 	// the retry loop is entered at least once: the backoff is created here with a context that is never done and
 	// a positive constant retry budget, so its first Ongoing() answers true (premise checked below)
 	premise := false
-	ast.Inspect(f.Decl.Body, func(n ast.Node) bool {
-		c, ok := n.(*ast.CallExpr)
-		if !ok || !core.IsPkgFunc(core.Callee(f.Pkg.TypesInfo, c), pBackoff, "New") || len(c.Args) != 2 {
-			return true
-		}
-		bg := strings.Contains(origin(f, c.Args[0], 3), "context.Background(")
-		pos := false
-		if cl := findCompositeLit(f, c.Args[1]); cl != nil {
-			if v := core.ConstVal(f.Pkg.TypesInfo, litField(cl, "MaxRetries")); v != nil && v.Kind() == constant.Int && constant.Sign(v) > 0 {
-				pos = true
+	// (the loop may sit in a helper of the type the report step hands the request to)
+	for _, g := range withCallees(w, f, 2) {
+		g := g
+		ast.Inspect(g.Decl.Body, func(n ast.Node) bool {
+			c, ok := n.(*ast.CallExpr)
+			if !ok || !core.IsPkgFunc(core.Callee(g.Pkg.TypesInfo, c), pBackoff, "New") || len(c.Args) != 2 {
+				return true
 			}
-		}
-		premise = bg && pos
-		return true
-	})
+			bg := strings.Contains(origin(g, c.Args[0], 3), "context.Background(")
+			pos := false
+			if cl := findCompositeLit(g, c.Args[1]); cl != nil {
+				if v := core.ConstVal(g.Pkg.TypesInfo, litField(cl, "MaxRetries")); v != nil && v.Kind() == constant.Int && constant.Sign(v) > 0 {
+					pos = true
+				}
+			}
+			premise = bg && pos
+			return true
+		})
+	}
 	r.Sites++
 	r.Check(premise, "C02.retry", core.ShortKey(f.Obj)+" : the report is attempted at least once", w.Pos(f.Decl.Pos()), "backoff over context.Background() with a positive constant MaxRetries", "the retry budget of the report is not a positive constant over a never-done context: the loop may not run at all and nil would be returned without any report")
 	sp := &flow.Spec{W: w, Depth: 0, Split: []flow.Tag{"unregistered", "fresh"},
